@@ -1,0 +1,254 @@
+//! Verification hook (compiled only with `--cfg disjoint_impls_verif` in test mode).
+//!
+//! A line-protocol driver that calls the crate's real (private) functions on inputs read
+//! from the file named by `DISJOINT_IMPLS_VERIF_IN` and writes one response line per request
+//! to the file named by `DISJOINT_IMPLS_VERIF_OUT`. Nothing here changes the behaviour of the macro.
+//!
+//! Request : `<id>\t<cmd>\t<arg>...`      (arguments are Rust source text, no tabs/newlines)
+//! Response: `<id>\t<status>\t<field>...` (status = ok | panic; fields are `{:?}` dumps / token strings)
+
+use std::io::{BufRead, Write};
+use std::panic::{AssertUnwindSafe, catch_unwind};
+
+use super::*;
+
+#[derive(Default)]
+struct RecordingHasher(Vec<u8>);
+
+impl core::hash::Hasher for RecordingHasher {
+    fn finish(&self) -> u64 {
+        0
+    }
+
+    fn write(&mut self, bytes: &[u8]) {
+        self.0.extend_from_slice(bytes);
+    }
+}
+
+fn hex(bytes: &[u8]) -> String {
+    bytes.iter().map(|b| format!("{b:02x}")).collect()
+}
+
+fn oneline(s: String) -> String {
+    s.replace(['\n', '\t', '\r'], " ")
+}
+
+fn toks<T: ToTokens>(t: &T) -> String {
+    oneline(t.to_token_stream().to_string())
+}
+
+fn dbg<T: core::fmt::Debug>(t: &T) -> String {
+    oneline(format!("{t:?}"))
+}
+
+fn parse<T: syn::parse::Parse>(src: &str) -> T {
+    syn::parse_str::<T>(src).unwrap_or_else(|e| panic!("verif-parse-error: {e}: {src}"))
+}
+
+fn subs_fields(subs: &Option<Substitutions>) -> Vec<String> {
+    vec![dbg(subs)]
+}
+
+fn group_id(trait_: &str, self_ty: &str) -> ImplGroupId {
+    let trait_ = if trait_ == "-" {
+        None
+    } else {
+        Some(parse::<syn::Path>(trait_))
+    };
+
+    ImplGroupId(trait_, parse::<syn::Type>(self_ty))
+}
+
+fn dump_groups(impls: &ImplGroups) -> Vec<String> {
+    let mut out = vec![dbg(&impls.item_trait_.is_some())];
+
+    for (id, group) in &impls.impl_groups {
+        out.push("group".into());
+        out.push(dbg(id));
+        out.push(dbg(&group.item_impls.len()));
+        for item in &group.item_impls {
+            out.push(dbg(item));
+        }
+        out.push(dbg(&group.assoc_bounds));
+        let idents = group
+            .assoc_bounds
+            .idents()
+            .map(|((b, t), a)| (b.clone(), t.clone(), a.clone()))
+            .collect::<Vec<_>>();
+        out.push(dbg(&idents));
+        let payloads = group.assoc_bounds.payloads().collect::<Vec<_>>();
+        out.push(dbg(&payloads));
+    }
+
+    out
+}
+
+fn handle(cmd: &str, args: &[&str]) -> Vec<String> {
+    match cmd {
+        // dump the parse of a source snippet
+        "dump" => match args[0] {
+            "type" => vec![dbg(&parse::<syn::Type>(args[1]))],
+            "path" => vec![dbg(&parse::<syn::Path>(args[1]))],
+            "expr" => vec![dbg(&parse::<syn::Expr>(args[1]))],
+            "impl" => vec![dbg(&parse::<syn::ItemImpl>(args[1]))],
+            "trait" => vec![dbg(&parse::<syn::ItemTrait>(args[1]))],
+            "file" => vec![dbg(&parse::<syn::File>(args[1]))],
+            k => panic!("verif-bad-kind: {k}"),
+        },
+        // a.is_superset(b)
+        "sup" => match args[0] {
+            "type" => {
+                let (a, b) = (parse::<syn::Type>(args[1]), parse::<syn::Type>(args[2]));
+                let mut out = vec![dbg(&a), dbg(&b)];
+                out.extend(subs_fields(&a.is_superset(&b)));
+                out
+            }
+            "path" => {
+                let (a, b) = (parse::<syn::Path>(args[1]), parse::<syn::Path>(args[2]));
+                let mut out = vec![dbg(&a), dbg(&b)];
+                out.extend(subs_fields(&a.is_superset(&b)));
+                out
+            }
+            "expr" => {
+                let (a, b) = (parse::<syn::Expr>(args[1]), parse::<syn::Expr>(args[2]));
+                let mut out = vec![dbg(&a), dbg(&b)];
+                out.extend(subs_fields(&a.is_superset(&b)));
+                out
+            }
+            "gid" => {
+                let (a, b) = (group_id(args[1], args[2]), group_id(args[3], args[4]));
+                let mut out = vec![dbg(&a), dbg(&b)];
+                out.extend(subs_fields(&a.is_superset(&b)));
+                out
+            }
+            k => panic!("verif-bad-kind: {k}"),
+        },
+        // reverse substitution of a bound through sigma = a.is_superset(b)
+        "revsub" => {
+            let (a, b) = (parse::<syn::Type>(args[0]), parse::<syn::Type>(args[1]));
+            let bound: TraitBoundIdent = (
+                Bounded(parse::<syn::Type>(args[2])),
+                TraitBound(parse::<syn::Path>(args[3])),
+            );
+            let subs = a.is_superset(&b);
+            let mut out = vec![dbg(&a), dbg(&b), dbg(&bound.0), dbg(&bound.1), dbg(&subs)];
+            if let Some(subs) = &subs {
+                let res = subs.substitute(&bound).collect::<Vec<_>>();
+                out.push(dbg(&res.len()));
+                for (bounded, trait_) in res {
+                    out.push(dbg(&bounded));
+                    out.push(dbg(&trait_));
+                }
+            }
+            out
+        }
+        // TraitBound: Eq / Ord / Hash / ToTokens
+        "tb" => {
+            let p = TraitBound(parse::<syn::Path>(args[0]));
+            let q = TraitBound(parse::<syn::Path>(args[1]));
+            let feed = |t: &TraitBound| {
+                use core::hash::Hash;
+                let mut h = RecordingHasher::default();
+                t.hash(&mut h);
+                hex(&h.0)
+            };
+            vec![
+                dbg(&p),
+                dbg(&q),
+                dbg(&(p == q)),
+                dbg(&(q == p)),
+                dbg(&p.cmp(&q)),
+                feed(&p),
+                feed(&q),
+                toks(&p),
+                toks(&q),
+            ]
+        }
+        // parameter canonicalisation
+        "canon" => {
+            let raw = parse::<syn::ItemImpl>(args[0]);
+            let mut item = raw.clone();
+            param::resolve_non_predicate_params(&mut item);
+            let mut twice = item.clone();
+            param::resolve_non_predicate_params(&mut twice);
+            vec![dbg(&raw), dbg(&item), toks(&item), dbg(&(twice == item))]
+        }
+        // canonicalisation + bound extraction
+        "bounds" => {
+            let mut item = parse::<syn::ItemImpl>(args[0]);
+            param::resolve_non_predicate_params(&mut item);
+            let bounds = TraitBoundsVisitor::find(&item.generics);
+            vec![dbg(&item), dbg(&bounds)]
+        }
+        // the whole front end: grouping search (+ validation, which aborts outside a macro context)
+        "parse" => {
+            let impls = parse::<ImplGroups>(args[0]);
+            dump_groups(&impls)
+        }
+        // front end + the three generators
+        "gen" => {
+            let impls = parse::<ImplGroups>(args[0]);
+            let mut out = dump_groups(&impls);
+            out.push("gen".into());
+
+            let main_trait = impls.item_trait_;
+            out.push(main_trait.as_ref().map_or_else(String::new, toks));
+            for (idx, group) in impls.impl_groups.into_values().enumerate() {
+                out.push("family".into());
+                let helper = helper_trait::generate(main_trait.as_ref(), idx, &group);
+                out.push(dbg(&helper));
+                out.push(helper.as_ref().map_or_else(String::new, toks));
+                let main = main_trait::generate(main_trait.as_ref(), idx, &group);
+                out.push(dbg(&main));
+                out.push(main.as_ref().map_or_else(String::new, toks));
+                let helpers = disjoint::generate(idx, group);
+                out.push(dbg(&helpers.len()));
+                for h in helpers {
+                    out.push(dbg(&h));
+                    out.push(toks(&h));
+                }
+            }
+            out
+        }
+        c => panic!("verif-bad-cmd: {c}"),
+    }
+}
+
+#[test]
+fn verif_driver() {
+    let (Ok(input), Ok(output)) = (
+        std::env::var("DISJOINT_IMPLS_VERIF_IN"),
+        std::env::var("DISJOINT_IMPLS_VERIF_OUT"),
+    ) else {
+        return;
+    };
+
+    std::panic::set_hook(Box::new(|_| {}));
+
+    let input = std::io::BufReader::new(std::fs::File::open(input).unwrap());
+    let mut output = std::io::BufWriter::new(std::fs::File::create(output).unwrap());
+
+    for line in input.lines() {
+        let line = line.unwrap();
+        let mut fields = line.split('\t');
+        let (Some(id), Some(cmd)) = (fields.next(), fields.next()) else {
+            continue;
+        };
+        let args = fields.collect::<Vec<_>>();
+
+        let res = catch_unwind(AssertUnwindSafe(|| handle(cmd, &args)));
+        match res {
+            Ok(fields) => writeln!(output, "{id}\tok\t{}", fields.join("\t")).unwrap(),
+            Err(e) => {
+                let msg = e
+                    .downcast_ref::<String>()
+                    .cloned()
+                    .or_else(|| e.downcast_ref::<&str>().map(|s| s.to_string()))
+                    .unwrap_or_else(|| "<non-string panic>".into());
+                writeln!(output, "{id}\tpanic\t{}", oneline(msg)).unwrap()
+            }
+        }
+    }
+
+    output.flush().unwrap();
+}
